@@ -22,7 +22,7 @@ class P:
             "oddities corpus (lone trailing backslash, empty quotes, empty here-documents ...), generated programs: Pos()/End() of every node, Fprint "
             "under all 256 Configs, Expand of every word under 8 ExpModes x 3 option sets x 2 argument vectors; Eval, Match (16 mode values, 1 and 2 "
             "patterns) and Glob on all strings of <= 3 symbols over a 24-symbol alphabet of operators, brackets, quotes, escapes, multi-byte and "
-            "invalid bytes plus random longer strings; Option.String on all 2^14 values and on high bits. Non-trivial = length >= 2; distinct inputs counted")
+            "invalid bytes plus random longer strings; the model of Eval (proved total) against interp.Eval on the same strings and on generated expressions of depth 2-6 with 18 kinds of variable values; Option.String on all 2^14 values and on high bits. Non-trivial = length >= 2; distinct inputs counted")
     assumptions = ["absence of panics is observed, in isolated worker processes; termination by watchdog"]
 
     def parts(self, seed, tier, C):
@@ -41,15 +41,32 @@ class P:
         anys = [s.encode("utf-8", "surrogateescape").hex() if "\xff" not in s else s.replace("\xff", "\udcff").encode("utf-8", "surrogateescape").hex() for s in strs]
         opts = [str(i) for i in range(1 << 14)] + [str(1 << 13), str((1 << 62) - 1), str(1 << 20)]
         nt = lambda c: len(c) >= 4
+        # the model of Eval whose totality is proved (C19_eval_total), against interp.Eval on the same strings
+        from props import c11 as A
+        evs = [A.mk({"x": rnd.choice(A.VALS), "y": rnd.choice(A.VALS)}, s) for s in strs if "\xff" not in s or len(s) <= 3]
+        evs += [A.mk({"x": rnd.choice(A.VALS), "y": rnd.choice(A.VALS)}, A.respace(rnd, A.gen(rnd, rnd.choice([2, 3, 4, 5, 6]))))
+                for _ in range(3000 if tier == "quick" else 40000)]
+
+        def ecmp(c, i, m):
+            if m.startswith("err:syntax"):
+                return i.startswith("err:")
+            if m.startswith("err:"):
+                return i.startswith("err:") and i.split(" S=")[1] == m.split(" S=")[1]
+            return i == m
         return [{"name": "downstream-of-parser", "harness": "down", "driver": None, "cases": down, "impl_ok": ok, "nontrivial": nt, "chunk": 200,
                  "distribution": {"sources": len(down)}},
                 {"name": "eval-match-glob-any-string", "harness": "anystr", "driver": None, "cases": anys, "impl_ok": ok, "nontrivial": nt,
                  "distribution": {"strings": len(anys)}},
+                {"name": "eval-model-correspondence", "harness": "c11", "driver": "c11", "cases": evs, "compare": ecmp, "ignore_judge": True,
+                 "nontrivial": lambda c: len(c.split("\t")[1]) >= 4, "distribution": {"expressions": len(evs)}},
                 {"name": "option-string", "harness": "optstr", "driver": "optstr", "cases": opts, "nontrivial": lambda c: c != "0"}]
 
     def describe(self, part, case):
         if part == "option-string":
             return "Option(%s).String()" % case
+        if part == "eval-model-correspondence":
+            from props import c11 as A
+            return A.PROP.describe("random-depth3-4", case)
         return "%s on %r" % (part, unhx(case.split("\t")[0]).decode("utf-8", "replace"))
 
     def classify(self, part, case, impl, model, judge, findings):
@@ -57,6 +74,17 @@ class P:
 
     def replay(self, payload, C):
         part = payload.get("part")
+        if part == "eval-model-correspondence":
+            from props import c11 as A
+            c = payload["case"]
+            i = C.run_harness("c11", [c])[0]
+            m = C.run_driver("c11", [c])[0]
+            print("case :", self.describe(part, c)); print("impl :", i[:300]); print("model:", m[:300])
+            if i.startswith("panic") or not (i == m or (m.startswith("err:") and i.startswith("err:"))):
+                print("VIOLATION property=C19 replay=(replayed)")
+                return 1
+            print("replay: property holds on this case now")
+            return 0
         sub = {"downstream-of-parser": "down", "eval-match-glob-any-string": "anystr", "option-string": "optstr"}.get(part, "down")
         c = payload["case"]
         o = C.run_harness(sub, [c])[0]
